@@ -110,9 +110,13 @@ NoSchemaExamples(doc, v) ==
    \/ /\ LastEdge(v.via) \in {<<"parameter", "examples">>, <<"header", "examples">>, <<"mediaType", "examples">>}
       /\ Len(v.at) >= 2 /\ ~Has(AtPtr(doc, SubSeq(v.at, 1, Len(v.at) - 2)), "schema")
 
+(* F-C04-15 Link.Validate never validates the Server Object of the link *)
+UnderLinkServer(v) == HasEdge(v.via, "link", "server")
+
 Missed(doc, sites, v, opts, noopt) ==
    (* a place the walk never reaches explains everything below it (the headers of an encoding: still open) *)
    IF UnderEncoding(v) THEN "encoding_header_errors_swallowed"
+   ELSE IF UnderLinkServer(v) THEN "link_server_not_validated"
    ELSE IF ContextLost(doc, v, noopt) THEN "example_request_response_context_lost_without_options"
    ELSE IF ContextLeak(doc, sites, v, noopt) THEN "example_judged_in_mode_of_earlier_request_body_or_response"
    ELSE IF NoSchemaExamples(doc, v) THEN "examples_not_validated_without_schema"
